@@ -236,6 +236,7 @@ def check_C04(ctx):
     vt.tlc_design(ctx, 'MatcherMC', label='matchers: C01/C02/C04 design invariants over the perturbation lattice')
     scen = vt.tlc_generate(ctx, 'GenWire', 'C04', 0)
     scen += [s for s in vt.tlc_generate(ctx, 'GenWire', 'C01', 0) if 'from_foreign' in s['label'] or 'genuine' in s['label']]
+    scen += vt.tlc_generate(ctx, 'GenRun', 'C04', 0)       # the mark on the library's Results, with and without enrichment
     wire_family(ctx, 'C04', scen, WIRE_RULE % 'C04All (responder x form matrix) + the foreign-responder cases of C01All', nontrivial=delivered_something)
     vt.write_evidence(ctx, 'model_checking', ctx_rule(ctx), exhaustive=True)
 
@@ -618,6 +619,10 @@ def check_C17(ctx):
     scen += [x for x in vt.tlc_generate(ctx, 'GenRun', 'Hist', 0) if x['id'].startswith('C17/')]     # an identical unredacted request served at the same time
     wire_family(ctx, 'C17', scen, DOC_RULE % 'C17All (every private block boundary and its public neighbours, mapped forms, empty hops, with/without enrichment, skip on/off)' +
                 '; plus GenRun!C17All through RunTraceroute and the HTTP handler', nontrivial=lambda s, es: True)
+    # on the real kernel, through the library and the command line: IPv4, IPv6 (unique local addresses), --ipv6 next to an IPv4 literal
+    rule = ctx_rule(ctx)
+    lab_family(ctx, 'C17', 'C17')
+    ctx.extra['rule'] = rule + '; plus KernelPath!C17Lab on a real kernel path (library and CLI)'
     vt.write_evidence(ctx, 'model_checking', ctx_rule(ctx), exhaustive=True)
 
 def cache_scenarios(ctx, cfg):
@@ -651,8 +656,12 @@ def check_C18(ctx):
     scen = vt.tlc_generate(ctx, 'GenDoc', 'C18', 400 if ctx.quick() else 0)
     scen += vt.tlc_generate(ctx, 'GenDoc', 'C18dup', 0)      # concurrent duplicate lookups, then a re-lookup that must hit the cache
     scen += vt.tlc_generate(ctx, 'GenDoc', 'C18dst', 0)      # runs with different destination addresses
+    # enrichment followed by redaction: names stay with the addresses that are still reported (the boundary-address documents of C17All)
+    scen += [x for x in vt.tlc_generate(ctx, 'GenDoc', 'C17', 0) if x['extra']['doc']['enrich']][:: (2 if ctx.quick() else 1)]
     scen += cache_scenarios(ctx, 'Enrich.cfg' if ctx.quick() else 'Enrich_6.cfg')[: (3000 if ctx.quick() else 10**9)]
     scen += pub_scenarios(ctx)
+    # discovery as part of a request (library and HTTP): it gets the caller's context, a slow provider still answers
+    scen += [x for x in vt.tlc_generate(ctx, 'GenRun', 'C10', 0) if x['run']['public_ip'] and x['run']['dns']['*'] in ('+300:n-slow', '!boom')]
     wire_family(ctx, 'C18', scen,
                 '(a) ' + (DOC_RULE % 'C18All (address multisets with duplicates / empty / mapped forms x per-address resolver behaviour names|two|empty|error|slow) and C18Dup (concurrent duplicate lookups with different outcomes, then a re-lookup)') +
                 '; (b) every operation sequence of the cache state machine Enrich.tla (get k ok|err, advance ttl-1|2|ttl+1) explored by TLC, replayed on cache.GetWithExpiration '
